@@ -213,24 +213,26 @@ func runLoadOrder(name string) mon.Result {
 				objs = append(objs, o)
 				// every object loaded so far must (still) equal its reference
 				for _, q := range objs {
-					if what, det := cmpObj(q); what != "" {
+					if what, det := cmpObj(q); what == "driver-host" || what == "driver-transport" {
+						// contents equal, but the result is not this load's own any more
+						return viol("c17/shared-object:"+name, "%s; sequence %s: after load #%d (%s): %s", src.tag, seq.name, i+1, kind(o), det)
+					} else if what != "" {
 						return viol(fmt.Sprintf("c17/load-order:%s:%s:%s", name, seq.name, what),
 							"%s; sequence %s: after load #%d (%s), the object returned by load #%d (%s, host %s) differs from the independent reading of the definition: %s",
 							src.tag, seq.name, i+1, kind(o), q.step+1, kind(q), q.host, det)
 					}
 					obs["objects_compared_after_later_loads"]++
 				}
-			}
-			// distinct results
-			for i := range objs {
-				for j := i + 1; j < len(objs); j++ {
-					if objs[i].p == objs[j].p {
-						return viol("c17/shared-object:"+name, "%s; sequence %s: loads #%d and #%d returned the same *Platform", src.tag, seq.name, i+1, j+1)
+				// distinct results: no two loads may hand out the same platform or driver
+				for _, q := range objs[:len(objs)-1] {
+					if q.p == o.p {
+						return viol("c17/shared-object:"+name, "%s; sequence %s: loads #%d (%s, host %s) and #%d (%s, host %s) returned the same *Platform",
+							src.tag, seq.name, q.step+1, kind(q), q.host, i+1, kind(o), o.host)
 					}
-					di, _ := objs[i].p.GetNetworkDriver()
-					dj, _ := objs[j].p.GetNetworkDriver()
-					if di != nil && di == dj {
-						return viol("c17/shared-object:"+name, "%s; sequence %s: loads #%d and #%d hand out the same network driver", src.tag, seq.name, i+1, j+1)
+					dq, _ := q.p.GetNetworkDriver()
+					do, _ := o.p.GetNetworkDriver()
+					if dq != nil && dq == do {
+						return viol("c17/shared-object:"+name, "%s; sequence %s: loads #%d and #%d hand out the same network driver", src.tag, seq.name, q.step+1, i+1)
 					}
 				}
 			}
